@@ -3,6 +3,7 @@
       oracle alternative when the tape is empty (the literal code), and a
       history theorem for dd.bdd with dynamic reordering ENABLED. *)
 From DD Require Export Dynamic2 Sift9.
+From DD Require Import C01proof.
 Local Open Scope string_scope.
 
 (** ** 1. The operations never touch the oracle tape ([Sift7.nt]) *)
@@ -185,3 +186,156 @@ Proof.
   intros Hnt Ht Hrun H. destruct (Hnt s r s' Ht Hrun) as [Ht' Hne].
   by destruct H as [->|?].
 Qed.
+
+Section notape.
+Context (s : st) (L : positive → nat) (HI : Inv s) (HC : Counts s L)
+        (Hc : rctx s = false) (Ht : tape s = []).
+
+Theorem ite_notape g u v r s' :
+  valid s g → valid s u → valid s v →
+  heldn L (absn g) → heldn L (absn u) → heldn L (absn v) →
+  ite g u v s = (r, s') →
+  (∃ w, r = Ok w ∧ Inv s' ∧ Counts s' L ∧ rctx s' = false ∧
+        (last_len s = None → last_len s' = None) ∧
+        (is_Some (last_len s) → is_Some (last_len s')) ∧
+        keeps (heldn L) s s' ∧ valid s' w ∧
+        ∀ ρ, denv s' w ρ = if denv s g ρ then denv s u ρ else denv s v ρ) ∧
+  tape s' = [].
+Proof.
+  intros. apply (no_oracle (ite g u v) s r s'); [apply nt_ite|done|done|].
+  by apply (ite_dynamic s L g u v r s' sifting_ok'_holds).
+Qed.
+
+Theorem var_notape name r s' :
+  is_Some (vars s !! name) →
+  var name s = (r, s') →
+  (∃ w, r = Ok w ∧ Inv s' ∧ Counts s' L ∧ rctx s' = false ∧
+        (last_len s = None → last_len s' = None) ∧
+        (is_Some (last_len s) → is_Some (last_len s')) ∧
+        keeps (heldn L) s s' ∧ valid s' w ∧ ∀ ρ, denv s' w ρ = ρ name) ∧
+  tape s' = [].
+Proof.
+  intros. apply (no_oracle (var name) s r s'); [apply nt_var|done|done|].
+  by apply (var_dynamic s L name r s' sifting_ok'_holds).
+Qed.
+
+Theorem apply_notape op u v w r s' f :
+  op ∈ py_vocab → conn_sem op = Some f →
+  valid s u → ovalid s v → ovalid s w → arity_ok op v w = true →
+  heldn L (absn u) → oref L v → oref L w →
+  apply op u v w s = (r, s') →
+  (∃ x, r = Ok x ∧ Inv s' ∧ Counts s' L ∧ rctx s' = false ∧
+        (last_len s = None → last_len s' = None) ∧
+        (is_Some (last_len s) → is_Some (last_len s')) ∧
+        keeps (heldn L) s s' ∧ valid s' x ∧
+        ∀ ρ, denv s' x ρ = f (denv s u ρ) (odenv s v ρ) (odenv s w ρ)) ∧
+  tape s' = [].
+Proof.
+  intros. apply (no_oracle (apply op u v w) s r s'); [apply nt_apply|done|done|].
+  by apply (apply_dynamic s L op u v w r s' f sifting_ok'_holds).
+Qed.
+
+Theorem apply_quant_notape op fa u v r s' :
+  (fa = true ∧ op ∈ ["\A"; "forall"]) ∨ (fa = false ∧ op ∈ ["\E"; "exists"]) →
+  valid s u → valid s v → heldn L (absn v) →
+  apply op u (Some v) None s = (r, s') →
+  (∃ x Q, r = Ok x ∧ Inv s' ∧ Counts s' L ∧ rctx s' = false ∧
+        (last_len s = None → last_len s' = None) ∧
+        (is_Some (last_len s) → is_Some (last_len s')) ∧
+        keeps (heldn L) s s' ∧ valid s' x ∧
+        (∀ y, y ∈ Q ↔ ∃ l, vars s !! y = Some l ∧ depends s u l) ∧
+        ∀ ρ, denv s' x ρ = true ↔ qsemv s fa Q v ρ) ∧
+  tape s' = [].
+Proof.
+  intros. apply (no_oracle (apply op u (Some v) None) s r s'); [apply nt_apply|done|done|].
+  by apply (apply_quant_dynamic s L op fa u v r s' sifting_ok'_holds).
+Qed.
+
+Theorem quantify_notape u qvars fa r s' :
+  valid s u → heldn L (absn u) →
+  Forall (fun k => is_Some (vars s !! k)) qvars →
+  quantify u true qvars fa s = (r, s') →
+  (∃ x, r = Ok x ∧ Inv s' ∧ Counts s' L ∧ rctx s' = false ∧
+        (last_len s = None → last_len s' = None) ∧
+        (is_Some (last_len s) → is_Some (last_len s')) ∧
+        keeps (heldn L) s s' ∧ valid s' x ∧
+        ∀ ρ, denv s' x ρ = true ↔ qsemv s fa (list_to_set qvars) u ρ) ∧
+  tape s' = [].
+Proof.
+  intros. apply (no_oracle (quantify u true qvars fa) s r s'); [apply nt_quantify|done|done|].
+  by apply (quantify_dynamic s L u qvars fa r s' sifting_ok'_holds).
+Qed.
+
+Theorem cofactor_notape u values r s' :
+  valid s u → heldn L (absn u) →
+  Forall (fun p => is_Some (vars s !! p.1)) values →
+  cofactor u true values s = (r, s') →
+  (∃ x, r = Ok x ∧ Inv s' ∧ Counts s' L ∧ rctx s' = false ∧
+        (last_len s = None → last_len s' = None) ∧
+        (is_Some (last_len s) → is_Some (last_len s')) ∧
+        keeps (heldn L) s s' ∧ valid s' x ∧
+        ∀ ρ, denv s' x ρ = denv s u (overridev (list_to_map (reverse values)) ρ)) ∧
+  tape s' = [].
+Proof.
+  intros. apply (no_oracle (cofactor u true values) s r s'); [apply nt_cofactor|done|done|].
+  by apply (cofactor_dynamic s L u values r s' sifting_ok'_holds).
+Qed.
+
+Theorem compose_notape f var_sub r s' :
+  valid s f → heldn L (absn f) →
+  Forall (fun p => is_Some (vars s !! p.1) ∧ valid s p.2 ∧ heldn L (absn p.2)) var_sub →
+  compose f var_sub s = (r, s') →
+  (∃ x, r = Ok x ∧ Inv s' ∧ Counts s' L ∧ rctx s' = false ∧
+        (last_len s = None → last_len s' = None) ∧
+        (is_Some (last_len s) → is_Some (last_len s')) ∧
+        keeps (heldn L) s s' ∧ valid s' x ∧
+        ∀ ρ, denv s' x ρ = denv s f (vsubstv s (list_to_map (reverse var_sub)) ρ)) ∧
+  tape s' = [].
+Proof.
+  intros. apply (no_oracle (compose f var_sub) s r s'); [apply nt_compose|done|done|].
+  by apply (compose_dynamic s L f var_sub r s' sifting_ok'_holds).
+Qed.
+
+Theorem rename_notape u dvars r s' :
+  valid s u → heldn L (absn u) →
+  (∀ x y, (x, y) ∈ dvars → is_Some (vars s !! y)) →
+  rename u dvars s = (r, s') →
+  (∃ x, r = Ok x ∧ Inv s' ∧ Counts s' L ∧ rctx s' = false ∧
+        (last_len s = None → last_len s' = None) ∧
+        (is_Some (last_len s) → is_Some (last_len s')) ∧
+        keeps (heldn L) s s' ∧ valid s' x ∧
+        ∀ ρ, denv s' x ρ = denv s u (renv (list_to_map (reverse dvars)) ρ)) ∧
+  tape s' = [].
+Proof.
+  intros. apply (no_oracle (rename u dvars) s r s'); [apply nt_rename|done|done|].
+  by apply (rename_dynamic s L u dvars r s' sifting_ok'_holds).
+Qed.
+
+Theorem cube_notape dvars r s' :
+  Forall (fun p => is_Some (vars s !! p.1)) dvars →
+  cube dvars s = (r, s') →
+  (∃ x, r = Ok x ∧ Inv s' ∧ Counts s' L ∧ rctx s' = false ∧
+        (last_len s = None → last_len s' = None) ∧
+        (is_Some (last_len s) → is_Some (last_len s')) ∧
+        keeps (heldn L) s s' ∧ valid s' x ∧
+        ∀ ρ, denv s' x ρ = true ↔ ∀ v b, (v, b) ∈ dvars → ρ v = b) ∧
+  tape s' = [].
+Proof.
+  intros. apply (no_oracle (cube dvars) s r s'); [apply nt_cube|done|done|].
+  by apply (cube_dynamic s L dvars r s' sifting_ok'_holds).
+Qed.
+
+Theorem let_notape d u r s' :
+  valid s u → heldn L (absn u) → let_ok L s d →
+  let_ d u s = (r, s') →
+  (∃ x, r = Ok x ∧ Inv s' ∧ Counts s' L ∧ rctx s' = false ∧
+        (last_len s = None → last_len s' = None) ∧
+        (is_Some (last_len s) → is_Some (last_len s')) ∧
+        keeps (heldn L) s s' ∧ valid s' x ∧
+        ∀ ρ, denv s' x ρ = denv s u (let_sem s d ρ)) ∧
+  tape s' = [].
+Proof.
+  intros. apply (no_oracle (let_ d u) s r s'); [apply nt_let|done|done|].
+  by apply (let_dynamic s L d u r s' sifting_ok'_holds).
+Qed.
+End notape.
